@@ -190,11 +190,16 @@ def stabilizeList (net : Net) (n : Nat) : List Nat → Option (List Nat)
       | none => some l
     | none => stabilizeList net n rest
 
+/-- a list that reaches the node itself has closed the cycle: what follows is cut (C02 repair) -/
+def cutAfterSelf (n : Nat) : List Nat → List Nat
+  | [] => []
+  | x :: xs => if x == n then [x] else x :: cutAfterSelf n xs
+
 def stabilize (net : Net) (n : Nat) : Net :=
   match net.get n with
   | none => net
   | some nd =>
-    match stabilizeList net n nd.succs with
+    match (stabilizeList net n nd.succs).map (cutAfterSelf n) with
     | none => net
     | some l =>
       let net := net.upd n (fun nd => { nd with succs := l })
@@ -309,7 +314,7 @@ def stabilizeNoNotify (net : Net) (n : Nat) : Net :=
   match net.get n with
   | none => net
   | some nd =>
-    match stabilizeList net n nd.succs with
+    match (stabilizeList net n nd.succs).map (cutAfterSelf n) with
     | none => net
     | some l => net.upd n (fun nd => { nd with succs := l })
 
